@@ -612,6 +612,11 @@ func (d *Disk) ReuseForWrite(oldname, newname string, _ vfs.DiskWriteCategory) (
 	if _, err := d.pre(OpReuse, newname); err != nil {
 		return nil, err
 	}
+	if d.OnRemove != nil {
+		// the old file's contents are about to be overwritten: as far as its
+		// old identity is concerned this is a removal
+		d.OnRemove(oldname)
+	}
 	d.mu.Lock()
 	defer d.mu.Unlock()
 	if err := d.applyRename(oldname, newname); err != nil {
@@ -813,6 +818,18 @@ func (d *Disk) Durable(p string) (entry, data bool) {
 	entry = dir.syncedChildren[name] == n
 	data = len(n.syncedData) == len(n.data) && string(n.syncedData) == string(n.data)
 	return
+}
+
+// ReadDurable returns a copy of a file's durable contents (what a crash that
+// keeps only synced data would leave), or nil if the file does not exist.
+func (d *Disk) ReadDurable(p string) []byte {
+	d.mu.Lock()
+	defer d.mu.Unlock()
+	n, err := d.lookup("open", p)
+	if err != nil {
+		return nil
+	}
+	return append([]byte(nil), n.syncedData...)
 }
 
 // SyncedPrefixLen returns the length of the longest prefix of the file's live
